@@ -47,7 +47,8 @@ REACH = [
 ALPHA = ["a", " ", '"', "'", "&", "<", "[", "]", "é", "."]
 EXTRA = ["b", "1", ">", "/", ".", "=", "(", ")", "|", "*", "@", ":", "-", "_", "日", "\t"]
 NUMERIC_LOOKING = ["0", "1", "2", "3", "007", "2024", "1_0", "-1", "+1", "1e3", "\uff11\uff12", "\u0663", "0x1", "1.0", "True", "None", "true", "false"]
-INJECTIONS = NUMERIC_LOOKING + ['a"]|//*[@x="', "a' or '1'='1", 'x" or "1"="1', "]]>", "&amp;", "&lt;b&gt;", "a\"'b", "'\"", "\"'\"", "a]", "[a", "a&b<c>d", "concat('a')", "a\nb"]
+QUOTE_DOT = ["rev'.bak", "a'.b'.c", "x'.y", "Smiths'. Co", "Q3 'est'. figures", "it's.", "a''.b", "a.'b", "l'a.b'.c.d", "'.", "a'.'b"]
+INJECTIONS = NUMERIC_LOOKING + QUOTE_DOT + ['a"]|//*[@x="', "a' or '1'='1", 'x" or "1"="1', "]]>", "&amp;", "&lt;b&gt;", "a\"'b", "'\"", "\"'\"", "a]", "[a", "a&b<c>d", "concat('a')", "a\nb"]
 MARK = "{urn:vf}mark"
 
 
